@@ -1492,3 +1492,241 @@ Proof.
   - eapply H; eauto.
   - eapply H; eauto. eapply Ha; eauto. eapply lookup_attr_in; eauto.
 Qed.
+
+(* ------------------------------------------------------------------ *)
+(** * Collections of simple elements: the check looks at exactly one cell *)
+Definition flat_coll (t : ty) : bool :=
+  match t with
+  | TList e | TSet e => simple e
+  | TDict k e => simple k && simple e
+  | _ => false
+  end.
+(* the annotation grammar of the property's class grammar *)
+Definition flat (t : ty) : bool := simple t || flat_coll t.
+
+Lemma forallb_app' {A} (f : A -> bool) l1 l2 : forallb f (l1 ++ l2) = forallb f l1 && forallb f l2.
+Proof. induction l1; simpl; auto. now rewrite IHl1, andb_assoc. Qed.
+
+Lemma forallb_firstn {A} (f : A -> bool) n l : forallb f l = true -> forallb f (firstn n l) = true.
+Proof. revert n; induction l; intros [|n]; simpl; auto. rewrite !andb_true_iff. intros []; auto. Qed.
+Lemma forallb_skipn {A} (f : A -> bool) n l : forallb f l = true -> forallb f (skipn n l) = true.
+Proof. revert n; induction l; intros [|n]; simpl; auto. rewrite !andb_true_iff. intros []; auto. Qed.
+
+Lemma forallb_insert_at {A} (f : A -> bool) n x l :
+  forallb f l = true -> f x = true -> forallb f (insert_at n x l) = true.
+Proof.
+  intros H Hx. unfold insert_at. rewrite forallb_app'. apply andb_true_iff. split.
+  - now apply forallb_firstn.
+  - cbn [forallb]. rewrite Hx. now apply forallb_skipn.
+Qed.
+Lemma forallb_set_at {A} (f : A -> bool) n x l :
+  forallb f l = true -> f x = true -> forallb f (set_at n x l) = true.
+Proof.
+  intros H Hx. unfold set_at. rewrite forallb_app'. apply andb_true_iff. split.
+  - now apply forallb_firstn.
+  - cbn [forallb]. rewrite Hx. now apply forallb_skipn.
+Qed.
+Lemma forallb_remove_at {A} (f : A -> bool) n l :
+  forallb f l = true -> forallb f (remove_at n l) = true.
+Proof.
+  intros H. unfold remove_at. rewrite forallb_app'. apply andb_true_iff. split.
+  - now apply forallb_firstn.
+  - now apply forallb_skipn.
+Qed.
+Lemma forallb_filter {A} (f g : A -> bool) l : forallb f l = true -> forallb f (filter g l) = true.
+Proof. induction l; simpl; auto. rewrite andb_true_iff. intros []. destruct (g a); simpl; auto. now rewrite H, IHl. Qed.
+Lemma forallb_imp {A} (f g : A -> bool) l :
+  (forall x, f x = true -> g x = true) -> forallb f l = true -> forallb g l = true.
+Proof. intro H. induction l; simpl; auto. rewrite !andb_true_iff. intros []; auto. Qed.
+
+(* conformance to a collection annotation is stable as long as the one cell
+   it inspects is untouched (elements are simple: stable under ext) *)
+Lemma check_flat_cell ct fuel h h' t c :
+  flat_coll t = true -> ext h h' -> nth_error h' c = nth_error h c ->
+  check_type fuel ct h (VRef c) t = true -> check_type fuel ct h' (VRef c) t = true.
+Proof.
+  intros Ft E N. destruct fuel as [|f]; simpl; auto.
+  destruct t; simpl in Ft; try discriminate; rewrite N; destruct (nth_error h c) as [[]|]; auto.
+  - apply forallb_imp. intros x. now apply (check_simple_ext ct h h').
+  - apply andb_true_iff in Ft. destruct Ft. apply forallb_imp. intros p. rewrite !andb_true_iff.
+    intros []; split; now apply (check_simple_ext ct h h').
+  - apply forallb_imp. intros x. now apply (check_simple_ext ct h h').
+Qed.
+
+Lemma check_flat_other ct fuel h t v c0 o o0 :
+  flat t = true -> nth_error h c0 = Some o0 -> shape o = shape o0 ->
+  (forall c, v = VRef c -> c <> c0 \/ flat_coll t = false) ->
+  check_type fuel ct h v t = true -> check_type fuel ct (set_nth c0 o h) v t = true.
+Proof.
+  intros Ft N S Hv C. assert (E : ext h (set_nth c0 o h)) by (eapply ext_set_nth; eauto).
+  unfold flat in Ft. destruct (simple t) eqn:St; [now apply (check_simple_ext ct h)|].
+  simpl in Ft. destruct v; try (destruct fuel, t; simpl in *; discriminate).
+  destruct (Hv l eq_refl) as [Ne|F]; [|congruence].
+  eapply check_flat_cell; eauto. apply set_nth_other. auto.
+Qed.
+
+Lemma FUEL_SS : exists f, FUEL = S (S f).
+Proof. Local Transparent FUEL. exists 62. reflexivity. Qed.
+#[local] Opaque FUEL.
+
+Lemma coll_write_list ct h c o0 xs' e f :
+  nth_error h c = Some o0 -> shape o0 = 0 -> simple e = true ->
+  forallb (fun x => check_type f ct h x e) xs' = true ->
+  check_type (S f) ct (set_nth c (OList xs') h) (VRef c) (TList e) = true.
+Proof.
+  intros N S Se F. simpl. rewrite nth_error_set_nth_same by (apply nth_error_Some; congruence).
+  revert F. apply forallb_imp. intros x. apply check_simple_ext; auto. eapply ext_set_nth; eauto.
+Qed.
+Lemma coll_write_set ct h c o0 xs' e f :
+  nth_error h c = Some o0 -> shape o0 = 2 -> simple e = true ->
+  forallb (fun x => check_type f ct h x e) xs' = true ->
+  check_type (S f) ct (set_nth c (OSet xs') h) (VRef c) (TSet e) = true.
+Proof.
+  intros N S Se F. simpl. rewrite nth_error_set_nth_same by (apply nth_error_Some; congruence).
+  revert F. apply forallb_imp. intros x. apply check_simple_ext; auto. eapply ext_set_nth; eauto.
+Qed.
+Lemma coll_write_dict ct h c o0 kvs' k e f :
+  nth_error h c = Some o0 -> shape o0 = 1 -> simple k = true -> simple e = true ->
+  forallb (fun p => check_type f ct h (fst p) k && check_type f ct h (snd p) e) kvs' = true ->
+  check_type (S f) ct (set_nth c (ODict kvs') h) (VRef c) (TDict k e) = true.
+Proof.
+  intros N S Sk Se F. simpl. rewrite nth_error_set_nth_same by (apply nth_error_Some; congruence).
+  revert F. apply forallb_imp. intros p. rewrite !andb_true_iff.
+  assert (E : ext h (set_nth c (ODict kvs') h)) by (eapply ext_set_nth; eauto).
+  intros []; split; eapply check_simple_ext; eauto.
+Qed.
+
+(* annotations are shallower than the fuel of the executable check *)
+Definition shallow (t : ty) : Prop := ty_depth t < FUEL.
+
+Lemma check_item_fuel ct h v e f : FUEL = S f -> ty_depth e < f ->
+  check_type FUEL ct h v e = true -> check_type f ct h v e = true.
+Proof. intros Ef D C. rewrite <- C. symmetry. apply check_fuel_mono; auto. lia. Qed.
+
+Section Keeps.
+  Variable ct : ctable.
+
+  Lemma write_eq s c o o0 : nth_error (heap s) c = Some o0 ->
+    write c o s = (Ok tt, mkst (set_nth c o (heap s)) (ncalls s) (fail_at s)).
+  Proof.
+    intro N. unfold write. assert (L : c < length (heap s)) by (apply nth_error_Some; congruence).
+    apply Nat.ltb_lt in L. now rewrite L.
+  Qed.
+
+  Lemma read_list_eq s c xs : nth_error (heap s) c = Some (OList xs) -> read_list (VRef c) s = (Ok (c, xs), s).
+  Proof. intro N. unfold read_list, loc_of_t, read, bind, ret. rewrite N. reflexivity. Qed.
+  Lemma read_dict_eq s c xs : nth_error (heap s) c = Some (ODict xs) -> read_dict (VRef c) s = (Ok (c, xs), s).
+  Proof. intro N. unfold read_dict, loc_of_t, read, bind, ret. rewrite N. reflexivity. Qed.
+  Lemma read_set_eq s c xs : nth_error (heap s) c = Some (OSet xs) -> read_set (VRef c) s = (Ok (c, xs), s).
+  Proof. intro N. unfold read_set, loc_of_t, read, bind, ret. rewrite N. reflexivity. Qed.
+
+  (* SequenceMutator._inserter keeps the list conforming to the attribute's annotation *)
+  Theorem seq_inserter_keeps s sp c index item ins u s' e :
+    a_ty sp = TList e -> simple e = true -> shallow (a_ty sp) ->
+    check_type FUEL ct (heap s) (VRef c) (TList e) = true ->
+    seq_inserter ct sp (VRef c) index item ins s = (Ok u, s') ->
+    check_type FUEL ct (heap s') (VRef c) (TList e) = true.
+  Proof.
+    intros Ht Se Sh C H. destruct FUEL_SS as [f Ef].
+    pose proof (seq_inserter_checked ct s sp (VRef c) index item ins u s' H) as Ci.
+    rewrite Ht in Ci. cbn [item_type] in Ci.
+    unfold shallow in Sh. rewrite Ht in Sh. simpl in Sh.
+    assert (Ci' : check_type (S f) ct (heap s) item e = true) by (apply (check_item_fuel ct _ _ _ _ Ef); [lia|exact Ci]).
+    unfold seq_inserter in H. erewrite bind_ok' in H; [|apply check_typeM_eq].
+    rewrite Ht in H. cbn [item_type] in H. rewrite Ci in H. cbn [negb] in H.
+    rewrite Ef in C.
+    change (match nth_error (heap s) c with
+            | Some (OList xs) => forallb (fun x => check_type (S f) ct (heap s) x e) xs
+            | _ => false end = true) in C.
+    destruct (nth_error (heap s) c) as [[xs| | |]|] eqn:N; try discriminate.
+    erewrite bind_ok' in H; [|apply read_list_eq; eauto]. cbn [fst snd] in H.
+    assert (W : forall xs', forallb (fun x => check_type (S f) ct (heap s) x e) xs' = true ->
+                write c (OList xs') s = (Ok u, s') ->
+                check_type FUEL ct (heap s') (VRef c) (TList e) = true).
+    { intros xs' F Hw. erewrite write_eq in Hw by eauto. inversion Hw; subst. simpl heap.
+      rewrite Ef. eapply coll_write_list; eauto. }
+    destruct index; try discriminate.
+    - eapply W; [|exact H]. rewrite forallb_app'. cbn [forallb]. now rewrite C, Ci'.
+    - destruct ins.
+      + eapply W; [|exact H]. apply forallb_insert_at; auto.
+      + destruct (norm_index _ _); [|discriminate]. eapply W; [|exact H]. apply forallb_set_at; auto.
+    - destruct ins.
+      + eapply W; [|exact H]. apply forallb_insert_at; auto.
+      + destruct (norm_index _ _); [|discriminate]. eapply W; [|exact H]. apply forallb_set_at; auto.
+  Qed.
+
+  Lemma forallb_map_upd {A} (f : A -> bool) (g : A -> A) l :
+    forallb f l = true -> (forall x, f x = true -> f (g x) = true) -> forallb f (map g l) = true.
+  Proof. intros H Hg. induction l; simpl in *; auto. apply andb_true_iff in H. destruct H. rewrite Hg, IHl; auto. Qed.
+
+  (* MappingMutator._inserter keeps the dict conforming (keys and values) *)
+  Theorem map_inserter_keeps s sp c key item u s' k e :
+    a_ty sp = TDict k e -> simple k = true -> simple e = true -> shallow (a_ty sp) ->
+    check_type FUEL ct (heap s) (VRef c) (TDict k e) = true ->
+    map_inserter ct sp (VRef c) key item s = (Ok u, s') ->
+    check_type FUEL ct (heap s') (VRef c) (TDict k e) = true.
+  Proof.
+    intros Ht Sk Se Sh C H. destruct FUEL_SS as [f Ef].
+    destruct (map_inserter_checked ct s sp (VRef c) key item u s' H) as [Ck Ci].
+    rewrite Ht in Ck, Ci. cbn [item_type key_type] in Ck, Ci.
+    unfold shallow in Sh. rewrite Ht in Sh. simpl in Sh.
+    assert (Ck' : check_type (S f) ct (heap s) key k = true) by (apply (check_item_fuel ct _ _ _ _ Ef); [lia|exact Ck]).
+    assert (Ci' : check_type (S f) ct (heap s) item e = true) by (apply (check_item_fuel ct _ _ _ _ Ef); [lia|exact Ci]).
+    unfold map_inserter in H. erewrite bind_ok' in H; [|apply check_typeM_eq].
+    rewrite Ht in H. cbn [item_type key_type] in H. rewrite Ck in H. cbn [negb] in H.
+    erewrite bind_ok' in H; [|apply check_typeM_eq]. rewrite Ci in H. cbn [negb] in H.
+    rewrite Ef in C.
+    change (match nth_error (heap s) c with
+            | Some (ODict kvs) => forallb (fun p => check_type (S f) ct (heap s) (fst p) k
+                                                    && check_type (S f) ct (heap s) (snd p) e) kvs
+            | _ => false end = true) in C.
+    destruct (nth_error (heap s) c) as [[|kvs| |]|] eqn:N; try discriminate.
+    erewrite bind_ok' in H; [|apply read_dict_eq; eauto]. cbn [fst snd] in H.
+    unfold dict_assign in H. destruct (negb (hashable key)); [discriminate|].
+    unfold bind at 1 in H. unfold get_heap, bind, ret in H.
+    erewrite write_eq in H by eauto. inversion H; subst. simpl heap. rewrite Ef.
+    eapply coll_write_dict; eauto.
+    match goal with |- context [if ?b then map _ _ else _] => destruct b end.
+    - apply forallb_map_upd; auto. intros p Hp. match goal with |- context [if ?b then _ else _] => destruct b end; auto.
+      cbn [fst snd]. apply andb_true_iff in Hp. destruct Hp as [Hp _]. now rewrite Hp, Ci'.
+    - rewrite forallb_app'. cbn [forallb fst snd]. now rewrite C, Ck', Ci'.
+  Qed.
+
+  (* SetMutator._inserter keeps the set conforming *)
+  Theorem set_inserter_keeps s sp c index item u s' e :
+    a_ty sp = TSet e -> simple e = true -> shallow (a_ty sp) ->
+    check_type FUEL ct (heap s) (VRef c) (TSet e) = true ->
+    set_inserter ct sp (VRef c) index item s = (Ok u, s') ->
+    check_type FUEL ct (heap s') (VRef c) (TSet e) = true.
+  Proof.
+    intros Ht Se Sh C H. destruct FUEL_SS as [f Ef].
+    pose proof (set_inserter_checked ct s sp (VRef c) index item u s' H) as Ci.
+    rewrite Ht in Ci. cbn [item_type] in Ci.
+    unfold shallow in Sh. rewrite Ht in Sh. simpl in Sh.
+    assert (Ci' : check_type (S f) ct (heap s) item e = true) by (apply (check_item_fuel ct _ _ _ _ Ef); [lia|exact Ci]).
+    unfold set_inserter in H. erewrite bind_ok' in H; [|apply check_typeM_eq].
+    rewrite Ht in H. cbn [item_type] in H. rewrite Ci in H. cbn [negb] in H.
+    rewrite Ef in C.
+    change (match nth_error (heap s) c with
+            | Some (OSet xs) => forallb (fun x => check_type (S f) ct (heap s) x e) xs
+            | _ => false end = true) in C.
+    destruct (nth_error (heap s) c) as [[| |xs|]|] eqn:N; try discriminate.
+    erewrite bind_ok' in H; [|apply read_set_eq; eauto]. cbn [fst snd] in H.
+    assert (Hx1 : exists xs1, forallb (fun x => check_type (S f) ct (heap s) x e) xs1 = true /\
+              (b <- set_mem ct xs1 item ;; write c (OSet (if b then xs1 else xs1 ++ [item]))) s = (Ok u, s')).
+    { match type of H with context [if ?b then set_discard _ _ _ else _] => destruct b end.
+      - unfold set_discard in H. destruct (negb (hashable index));
+          [rewrite bind_err' with (e := TypeErr) (s1 := s) in H by reflexivity; discriminate|].
+        unfold bind at 1 in H. unfold bind at 1 in H. unfold get_heap, ret in H.
+        eexists. split; [|exact H]. now apply forallb_filter.
+      - exists xs. split; auto. }
+    destruct Hx1 as [xs1 [F1 H1]].
+    unfold set_mem in H1. destruct (negb (hashable item));
+      [rewrite bind_err' with (e := TypeErr) (s1 := s) in H1 by reflexivity; discriminate|].
+    unfold bind at 1 in H1. unfold bind at 1 in H1. unfold get_heap, ret in H1.
+    erewrite write_eq in H1 by eauto. inversion H1; subst. simpl heap. rewrite Ef.
+    eapply coll_write_set; eauto.
+    match goal with |- context [if ?b then _ else _] => destruct b end; auto.
+    rewrite forallb_app'. cbn [forallb]. now rewrite F1, Ci'.
+  Qed.
+End Keeps.
